@@ -55,6 +55,9 @@ for fn,kind,ss,texts in todo:
     if ok: out2.append({"function":fn,"kind":kind,"count":len(ss),"reason":"; ".join(rs)})
 print("manual:",len(out2),"missing:",len(missing))
 for m in missing: print("  MISSING",m)
+if missing and "--force" not in sys.argv:
+    print("table NOT rewritten: give every MISSING site a reason in tools/c01_reasons.py (or fix its file:line key) and run again")
+    sys.exit(1)
 OPERAND_VIA = {
     ("brush_core::variables::ShellVariable::apply_value_transforms", "String::replace_range"): ["len_utf8"],
     ("brush_core::expansion::WordExpander::expand_word_piece", "String::truncate"): ["trim_end_matches"],
